@@ -156,6 +156,42 @@ Theorem C15_bad_include_rejected :
     bad_line (line_of d (kv_text kw_include g1 g2 vt)) = Some E_IncValue.
 Proof. exact bad_include_bad. Qed.
 
+(* Missing brace. brace_delta l = +1 if the line (comment stripped, trimmed) ends with an opening brace, -1 if it is a
+   closing brace, 0 otherwise; balance sums it; from_server = the lines from the `server {` line on. For EVERY file:
+   accepted => balanced, so any file that is not balanced is rejected with an error. In particular, taking any accepted
+   file and dropping the opening brace of a section header, or emptying / deleting a closing-brace line (anything that
+   changes one line's brace_delta), gives a rejected file. *)
+Theorem C15_accepted_balanced :
+  forall (files : bytes -> fentry) (file conf : bytes) (t : node), parse_conf files file conf = ROk t ->
+    exists ls, from_server (lines conf) = Some ls /\ balance ls = 0%Z.
+Proof. exact accepted_balanced. Qed.
+
+Theorem C15_unbalanced_rejected :
+  forall (files : bytes -> fentry) (file conf : bytes), utf8_valid conf = true ->
+    (forall ls, from_server (lines conf) = Some ls -> balance ls <> 0%Z) ->
+    exists e, parse_conf files file conf = RErr e.
+Proof. exact unbalanced_rejected. Qed.
+
+Theorem C15_missing_brace_rejected :
+  forall (files : bytes -> fentry) (file conf conf' : bytes) (t : node) (a : list bytes) (sl : bytes) (b : list bytes)
+         (l l' : bytes) (c : list bytes),
+    parse_conf files file conf = ROk t -> utf8_valid conf' = true ->
+    lines conf = a ++ sl :: b ++ l :: c -> lines conf' = a ++ sl :: b ++ l' :: c ->
+    from_server a = None -> beq (clean_up sl) kw_server_open = true ->
+    brace_delta l' <> brace_delta l ->
+    exists e, parse_conf files file conf' = RErr e.
+Proof. exact missing_brace_rejected. Qed.
+
+Theorem C15_deleted_brace_line_rejected :
+  forall (files : bytes -> fentry) (file conf conf' : bytes) (t : node) (a : list bytes) (sl : bytes) (b : list bytes)
+         (l : bytes) (c : list bytes),
+    parse_conf files file conf = ROk t -> utf8_valid conf' = true ->
+    lines conf = a ++ sl :: b ++ l :: c -> lines conf' = a ++ sl :: b ++ c ->
+    from_server a = None -> beq (clean_up sl) kw_server_open = true ->
+    brace_delta l <> 0%Z ->
+    exists e, parse_conf files file conf' = RErr e.
+Proof. exact deleted_brace_line_rejected. Qed.
+
 (* never by crashing (C03 instance for the loader) *)
 Theorem C15_load_safe :
   forall (ipp : bytes -> option bytes) (files : bytes -> fentry) (file conf : bytes), utf8_valid conf = true ->
@@ -170,6 +206,12 @@ Proof. exact config_parse_safe. Qed.
    containing it is rejected with its line (never mis-accepted); wf_str excludes such strings. *)
 Example C15_hash_in_string_rejected :
   parse_conf (fun _ => FNone) [109] [115;101;114;118;101;114;32;123;10;32;32;97;100;100;114;101;115;115;32;34;97;35;98;34;10;125;10] = RErr (mkerr E_Value [109] 2).
+Proof. vm_compute. reflexivity. Qed.
+
+(* The repaired acceptance defect: `host "x"` without its opening brace used to load (the host's routes became default
+   routes, everything after the stray closing brace was dropped); it is now rejected at the line after the early end. *)
+Example C15_host_without_brace_rejected :
+  parse_conf (fun _ => FNone) [109] [115;101;114;118;101;114;32;123;10;32;32;104;111;115;116;32;34;120;34;10;32;32;32;32;114;111;117;116;101;32;47;97;32;123;10;32;32;32;32;32;32;102;105;108;101;32;34;102;34;10;32;32;32;32;125;10;32;32;125;10;32;32;114;111;117;116;101;32;47;42;32;123;10;32;32;32;32;100;105;114;101;99;116;111;114;121;32;34;47;119;34;10;32;32;125;10;125;10] = RErr (mkerr E_Trailing [109] 7).
 Proof. vm_compute. reflexivity. Qed.
 
 (* Non-vacuity: a concrete description with a comment, CRLF include file, a size, a host and a multi-pattern route satisfies
@@ -237,7 +279,12 @@ Print Assumptions C15_reject_line_top.
 Print Assumptions C15_missing_value_rejected.
 Print Assumptions C15_bad_value_rejected.
 Print Assumptions C15_bad_include_rejected.
+Print Assumptions C15_accepted_balanced.
+Print Assumptions C15_unbalanced_rejected.
+Print Assumptions C15_missing_brace_rejected.
+Print Assumptions C15_deleted_brace_line_rejected.
 Print Assumptions C15_load_safe.
 Print Assumptions C15_hash_in_string_rejected.
+Print Assumptions C15_host_without_brace_rejected.
 Print Assumptions C15_example_hypotheses_satisfiable.
 Print Assumptions C15_example_loads.
